@@ -137,7 +137,7 @@ var (
 	// "scriptgo" is a <script> element whose content interpolates a Go value ({{ }}): the whitespace after the
 	// interpolation is part of the script and is written through as it is
 	RawContents = map[string]string{"style": "p{color:red}", "script": "var x = 1 < 2 && 3 > 2;",
-		"scriptgo": "var a = {{ env.E(1) }}  \t;var b = [{{ env.E(1) }} , 2];"}
+		"scriptgo": "var a = {{ env.E(1) }}  \t;var b = [{{ env.E(1) }} , 2];", "scriptcls": ""}
 )
 
 // OddAttrSpansLines reports whether the odd spelling writes the attribute expressions of this element over several
@@ -194,10 +194,18 @@ func CSSClassID(name, css string) string {
 
 // RawElement is the element name of a raw node kind.
 func RawElement(name string) string {
-	if name == "scriptgo" {
+	if name == "scriptgo" || name == "scriptcls" {
 		return "script"
 	}
 	return name
+}
+
+// RawAttrs is the attribute list (source text, with its leading space) of a raw node kind.
+func RawAttrs(name string) string {
+	if name == "scriptcls" {
+		return ` class={ env.K(1), env.K(2) } src="x.js"`
+	}
+	return ""
 }
 
 // RawRendered is the content a raw element renders: interpolated Go values appear as JSON (second key:
@@ -625,7 +633,7 @@ func (p *printer) node(n Node, depth int) {
 			p.ws("v", depth)
 		}
 	case "raw":
-		p.sb.WriteString("<" + RawElement(n.Name) + ">" + RawContents[n.Name] + "</" + RawElement(n.Name) + ">")
+		p.sb.WriteString("<" + RawElement(n.Name) + RawAttrs(n.Name) + ">" + RawContents[n.Name] + "</" + RawElement(n.Name) + ">")
 		p.ws(n.After, depth)
 	case "doctype":
 		p.sb.WriteString("<!DOCTYPE html>")
